@@ -118,6 +118,8 @@ def val_finding(f, line):
 def oracle(rep):
     for op, line in zip(rep["ops"], rep["impl"]):
         f = op.split(" ")
+        if line.startswith("timeout"):
+            continue   # the rig did not answer in time (load): common.py re-runs such a case alone with a larger budget
         if f[0] == "shape":
             if line != "same":
                 fid = {"embedded": "C22-embedded-fields-dropped", "embedded-pub": "C22-embedded-fields-dropped", "prof-embedded": "C22-embedded-fields-dropped",
